@@ -42,3 +42,17 @@ Theorem path_sets_alpha_in_grid_order :
   path_alphas cfg_of K_of supp_size p0 alphas w Xw = Ok l -> l = alphas.
 Proof. intros F H A. exact (@path_sets_alpha F H A). Qed.
 Print Assumptions path_sets_alpha_in_grid_order.
+
+(* estimator refits (_glm_fit): the start point handed to the solver is consistent -- Xw = X w[:p] + b 1 with b the
+   intercept that is actually in w (0 when none is fitted) -- for cold starts and warm starts from ANY previous fit,
+   also when fit_intercept was changed between the fits.  Model Skel/GlmFit.v tied by a spy on solver.solve. *)
+Require Import SK.Lemmas.MatVec SK.Skel.GlmFit SK.Lemmas.GlmStart.
+Theorem glm_fit_start_is_consistent :
+  forall (fi warm : bool) (prev : option (list R * R)) (X : list (list R)) (n : nat) (w Xw : list R),
+  wf_X n X -> match prev with Some (coef, _) => length coef = length X | None => True end ->
+  glm_start fi warm prev X n = (w, Xw) ->
+  let p := length X in
+  length w = (p + (if fi then 1 else 0))%nat /\
+  Cons n X (firstn p w) (repeat (if fi then last w 0 else 0) n) Xw.
+Proof. exact glm_start_consistent. Qed.
+Print Assumptions glm_fit_start_is_consistent.
